@@ -1,12 +1,16 @@
 /-
-  AY.Lemmas.C18Effective — dump ∘ parse on the merge-control vocabulary, up to explicit flags that
-  merely repeat the inherited value.
+  AY.Lemmas.C18Effective — dump ∘ parse on the merge-control vocabulary (any keyword combination
+  `priority / delete / allow_new / safe` + metadata on scalars, mappings and lists, any nesting).
 
-  For a tree `n = build env c r` (AY/Lemmas/C18Build.lean) that satisfies `nedWith st n` (no
-  explicit flag equal to its type default, the dumper's stack agrees with the inherited flags), the
-  dump `r'` of `n` re-parses in the same context to a tree `n'` that is `n` with some explicit
-  `delete / allow_new / safe` removed where they equal the inherited value (`simN`), and `n'` dumps
-  to `r'` again.  `simN` implies equality of all effective flags (`effEq`).
+  For a tree `n = build env c r` (AY/Lemmas/C18Build.lean) dumped with the stack `st`, where the
+  stack and the inherited flags are in the relation `Inv st c` that the dumper itself maintains, the
+  dump `r' = representWith st n` re-parses — in the context `rc c st` that the re-parse creates — to a
+  tree `n'` related to `n` by `simN`: same kinds, keys, scalars, metadata, inherited delete / safe,
+  and explicit flags equal or dropped where they repeat what the node gets anyway; and `n'` dumps to
+  `r'` again.  `simN` implies equality of all effective flags (`effEq`).
+
+  No side condition is left: the dumper's stack records, for `delete`, exactly what every container
+  hands down (`Inv.del : st.del = c.d`).
 -/
 import AY.Lemmas.C18Build
 set_option linter.unusedVariables false
@@ -15,17 +19,22 @@ namespace AY
 
 /-! ### the elision loop -/
 
-/-- `nodeInfo` as a function of the flags and the class default of `delete` -/
-def infoOf (st : DStack) (f : Flags) (dflt : Bool) : CtorKw :=
-  { prio := keepFlag f.prio st.prio Tables.defaultPriority,
-    del := keepFlag f.del st.del dflt,
-    new := keepFlag f.new st.new Tables.defaultAllowNew,
-    safe := keepFlag f.safe st.safe f.dSafe,
+/-- `nodeInfo` as a function of the flags and the class -/
+def infoOf (st : DStack) (f : Flags) (isComp : Bool) (dflt : Bool) : CtorKw :=
+  { prio := keepFlag f.prio st.prio (some Tables.defaultPriority),
+    del := keepDel false isComp f.del st.del dflt,
+    new := keepFlag f.new st.new (some Tables.defaultAllowNew),
+    safe := keepFlag f.safe st.safe none,
     md := f.md }
 
-theorem nodeInfo_eq (st : DStack) (n : Node) : nodeInfo st n = infoOf st n.flags n.defaultDel := rfl
+theorem nodeInfo_leaf (st : DStack) (f : Flags) (k : LeafKind) :
+    nodeInfo st (.leaf f k) = infoOf st f false Tables.defaultDeleteNode := rfl
+theorem nodeInfo_list (st : DStack) (f : Flags) (cs : List (Key × Node)) :
+    nodeInfo st (.comp f .list cs) = infoOf st f true (defaultDelete .list) := rfl
+theorem nodeInfo_dict (st : DStack) (f : Flags) (cs : List (Key × Node)) :
+    nodeInfo st (.comp f .dict cs) = infoOf st f true (defaultDelete .dict) := rfl
 
-theorem keepFlag_some {α : Type} [DecidableEq α] {x s : Option α} {d v : α}
+theorem keepFlag_some {α : Type} [DecidableEq α] {x s d : Option α} {v : α}
     (h : keepFlag x s d = some v) : x = some v := by
   cases x with
   | none => simp [keepFlag] at h
@@ -35,91 +44,90 @@ theorem keepFlag_some {α : Type} [DecidableEq α] {x s : Option α} {d v : α}
     · cases h
     · exact h
 
-theorem keepFlag_idem {α : Type} [DecidableEq α] (x s : Option α) (d : α) :
+/-- kept, or dropped because it repeats the stack value / the default -/
+theorem keepFlag_cases {α : Type} [DecidableEq α] (x s d : Option α) :
+    keepFlag x s d = x ∨ (keepFlag x s d = none ∧ x = s.or d) := by
+  cases x with
+  | none => exact .inl rfl
+  | some c =>
+    by_cases h : some c = s.or d
+    · exact .inr ⟨by simp [keepFlag, h], h⟩
+    · exact .inl (by simp [keepFlag, h])
+
+theorem keepFlag_idem {α : Type} [DecidableEq α] (x s d : Option α) :
     keepFlag (keepFlag x s d) s d = keepFlag x s d := by
   cases x with
   | none => rfl
   | some c =>
-    by_cases h : (decide (s = some c) || decide (c = d)) = true
-    · have : keepFlag (some c) s d = none := by simp only [keepFlag]; rw [if_pos h]
+    by_cases h : some c = s.or d
+    · have : keepFlag (some c) s d = none := by simp [keepFlag, h]
       rw [this]; rfl
-    · have : keepFlag (some c) s d = some c := by simp only [keepFlag]; rw [if_neg h]
+    · have : keepFlag (some c) s d = some c := by simp [keepFlag, h]
       rw [this, this]
 
-theorem keepFlag_none_stack {α : Type} [DecidableEq α] (x : Option α) (d : α) (hx : x ≠ some d) :
-    keepFlag x none d = x := by
-  cases x with
-  | none => rfl
-  | some c =>
-    have : c ≠ d := fun e => hx (by rw [e])
-    simp [keepFlag, this]
+/-- a value equal to the stack value is dropped -/
+theorem keepFlag_stack {α : Type} [DecidableEq α] (q : α) (d : Option α) : keepFlag (some q) (some q) d = none := by
+  simp [keepFlag]
 
-/-- an explicit non-default flag is kept, or it equals the stack value and hence the inherited one -/
-theorem keep_cases (x s i : Option Bool) (d : Bool) (hx : x ≠ some d) (hag : s = none ∨ s = i) :
-    keepFlag x s d = x ∨ (keepFlag x s d = none ∧ x = i) := by
-  cases x with
-  | none => exact .inl rfl
-  | some c =>
-    have hc : c ≠ d := fun e => hx (by rw [e])
-    by_cases hs : s = some c
-    · refine .inr ⟨by simp [keepFlag, hs], ?_⟩
-      rcases hag with h | h
-      · rw [h] at hs; cases hs
-      · rw [← h, hs]
-    · exact .inl (by simp [keepFlag, hs, hc])
+theorem keepDel_some {ic : Bool} {x s : Option Bool} {d v : Bool} (h : keepDel false ic x s d = some v) :
+    x = some v := by
+  rcases x with _ | _ | _ <;> rcases s with _ | _ | _ <;> cases ic <;> cases d <;> cases v <;>
+    simp [keepDel] at h ⊢
 
-theorem or_redundant {α : Type} (x i rest : Option α) (h : x = i) : i.or rest = x.or (i.or rest) := by
-  subst h; cases x <;> rfl
+/-- kept, or an explicit `False` dropped because an enclosing node states `False`, or (scalars only,
+    nothing stated above) because it is the type default -/
+theorem keepDel_cases (ic : Bool) (x s : Option Bool) (d : Bool) :
+    keepDel false ic x s d = x ∨
+      (keepDel false ic x s d = none ∧ x = some false ∧ (s = some false ∨ (s = none ∧ ic = false ∧ d = false))) := by
+  rcases x with _ | _ | _ <;> rcases s with _ | _ | _ <;> cases ic <;> cases d <;> simp [keepDel]
 
-theorem or_redundant' {α : Type} (x i : Option α) (h : x = i) : i = x.or i := by
-  subst h; cases x <;> rfl
+theorem keepDel_idem (ic : Bool) (x s : Option Bool) (d : Bool) :
+    keepDel false ic (keepDel false ic x s d) s d = keepDel false ic x s d := by
+  rcases x with _ | _ | _ <;> rcases s with _ | _ | _ <;> cases ic <;> cases d <;> simp [keepDel]
 
-/-! ### the hypothesis -/
+/-! ### the context of the re-parse, and what the dumper's stack knows about the inherited flags -/
 
-def agree (s i : Option Bool) : Bool := s.isNone || s == i
+/-- the context in which the re-parsed node is built: the stack is exactly what the enclosing
+    re-parsed nodes state about priority and allow_new; inherited delete / safe are unchanged -/
+def rc (c : BCtx) (st : DStack) : BCtx := { o := st.prio, d := c.d, nw := st.new, s := c.s }
 
-/-- one node: no explicit flag equals its default (`priority` = default priority, `delete` = class
-    default, `allow_new` = default, `safe` = True or the source-level flag), and a value on the
-    dumper's stack is the value the node inherits -/
-def okF (st : DStack) (f : Flags) (dflt : Bool) : Bool :=
-  f.prio != some Tables.defaultPriority && f.del != some dflt && f.new != some Tables.defaultAllowNew &&
-  f.safe != some true && f.safe != some f.dSafe &&
-  agree st.del f.iDel && agree st.new f.iNew && agree st.safe f.iSafe
+structure Inv (st : DStack) (c : BCtx) : Prop where
+  prio1 : ∀ q, st.prio = some q → c.o = some q
+  prio0 : st.prio = none → c.o = none ∨ c.o = some Tables.defaultPriority
+  del : st.del = c.d
+  new1 : ∀ b, st.new = some b → c.nw = some b
+  new0 : st.new = none → c.nw = none ∨ c.nw = some Tables.defaultAllowNew
+  safe1 : ∀ b, st.safe = some b → c.s = some false ∨ c.s = some b
 
-mutual
-/-- `okF` at every node, the stack threaded exactly as `representWith` threads it -/
-def nedWith (st : DStack) : Node → Bool
-  | .leaf f _ => okF st f Tables.defaultDeleteNode
-  | .comp f k cs =>
-    okF st f (defaultDelete k) && nedList (pushStack st k.tagged (nodeInfo st (.comp f k cs))) cs
-def nedList (st : DStack) : List (Key × Node) → Bool
-  | [] => true
-  | (_, c) :: rest => nedWith st c && nedList st rest
-end
+theorem inv_top : Inv {} ctx0 :=
+  ⟨fun _ h => (by cases h), fun _ => Or.inl rfl, rfl, fun _ h => (by cases h), fun _ => Or.inl rfl,
+   fun _ h => (by cases h)⟩
 
-/-- the hypothesis of the round-trip theorem, on the parsed tree -/
-def noExplicitDefault (n : Node) : Bool := nedWith {} n
+theorem rc_top : rc ctx0 {} = ctx0 := rfl
 
-theorem okF_iff (st : DStack) (f : Flags) (d : Bool) : okF st f d = true ↔
-    f.prio ≠ some Tables.defaultPriority ∧ f.del ≠ some d ∧ f.new ≠ some Tables.defaultAllowNew ∧
-    f.safe ≠ some true ∧ f.safe ≠ some f.dSafe ∧
-    (st.del = none ∨ st.del = f.iDel) ∧ (st.new = none ∨ st.new = f.iNew) ∧ (st.safe = none ∨ st.safe = f.iSafe) := by
-  simp [okF, agree, and_assoc]
+theorem rc_rc (c : BCtx) (st : DStack) : rc (rc c st) st = rc c st := rfl
+
+theorem inv_rc {st : DStack} {c : BCtx} (h : Inv st c) : Inv st (rc c st) :=
+  ⟨fun _ e => e, fun e => Or.inl e, h.del, fun _ e => e, fun e => Or.inl e, h.safe1⟩
 
 /-! ### the relation between the original and the re-parsed tree -/
 
-/-- equal, or dropped where it repeated the inherited value -/
-def redundant (x x' i : Option Bool) : Bool := x' == x || (x' == none && x == i)
+/-- equal, or the default dropped -/
+def relDflt {α : Type} [DecidableEq α] (d : α) (x x' : Option α) : Bool := x' == x || (x' == none && x == some d)
 
-def simF (f f' : Flags) : Bool :=
-  f'.prio == f.prio && f'.md == f.md && f'.iDel == f.iDel && f'.iNew == f.iNew && f'.iSafe == f.iSafe &&
-  f'.dSafe == f.dSafe && f'.src == f.src &&
-  redundant f.del f'.del f.iDel && redundant f.new f'.new f.iNew && redundant f.safe f'.safe f.iSafe
+/-- `f` the original flags, `f'` the re-parsed ones, `ic`: composed node, `dd`: class default of `delete` -/
+def simF (ic dd : Bool) (f f' : Flags) : Bool :=
+  relDflt Tables.defaultPriority f.prio f'.prio && f'.md == f.md && f'.iDel == f.iDel &&
+  relDflt Tables.defaultAllowNew f.iNew f'.iNew && f'.iSafe == f.iSafe && f'.dSafe == f.dSafe && f'.src == f.src &&
+  (f'.del == f.del || (f'.del == none && f.del == some false &&
+    (f.iDel == some false || (!ic && f.iDel == none && dd == false)))) &&
+  (f'.new == f.new || (f'.new == none && f.new == some (f.iNew.getD Tables.defaultAllowNew))) &&
+  (f'.safe == f.safe || (f'.safe == none && (f.iSafe == some false || f.safe == f.iSafe)))
 
 mutual
 def simN : Node → Node → Bool
-  | .leaf f k, .leaf f' k' => simF f f' && k == k'
-  | .comp f k cs, .comp f' k' cs' => simF f f' && k == k' && simL cs cs'
+  | .leaf f k, .leaf f' k' => simF false Tables.defaultDeleteNode f f' && k == k'
+  | .comp f k cs, .comp f' k' cs' => simF true (defaultDelete k) f f' && k == k' && simL cs cs'
   | _, _ => false
 def simL : List (Key × Node) → List (Key × Node) → Bool
   | [], [] => true
@@ -127,17 +135,28 @@ def simL : List (Key × Node) → List (Key × Node) → Bool
   | _, _ => false
 end
 
-/-- same effective flags and user metadata -/
+/-- same effective flags, user metadata, and the explicit `delete = True` -/
 def effF (n n' : Node) : Bool :=
   ePrio n.flags == ePrio n'.flags && eDel n == eDel n' && eNew n.flags == eNew n'.flags &&
-  eSafe n.flags == eSafe n'.flags && n.flags.md == n'.flags.md
+  eSafe n.flags == eSafe n'.flags && n.flags.md == n'.flags.md &&
+  ((n.flags.del == some true) == (n'.flags.del == some true))
+
+/-- what a container hands to (present and future) children: inherited delete and safe equal, the
+    inherited allow_new equal up to an explicit default -/
+def handsDownEq (kw kw' : Option ChildKw) : Bool :=
+  match kw, kw' with
+  | some a, some b => a.iDel == b.iDel && a.iSafe == b.iSafe &&
+      a.iNew.getD Tables.defaultAllowNew == b.iNew.getD Tables.defaultAllowNew
+  | none, none => true
+  | _, _ => false
 
 mutual
-/-- same kinds, keys, scalar content, user metadata and effective `priority / delete / allow_new /
-    safe` at every node -/
+/-- same kinds, keys, scalar content, user metadata, effective `priority / delete / allow_new / safe`,
+    explicit `delete = True`, and hand-down of every container, at every node -/
 def effEq : Node → Node → Bool
   | .leaf f k, .leaf f' k' => k == k' && effF (.leaf f k) (.leaf f' k')
-  | .comp f k cs, .comp f' k' cs' => k == k' && effF (.comp f k cs) (.comp f' k' cs') && effEqL cs cs'
+  | .comp f k cs, .comp f' k' cs' =>
+    k == k' && effF (.comp f k cs) (.comp f' k' cs') && handsDownEq (childKw f k) (childKw f' k') && effEqL cs cs'
   | _, _ => false
 def effEqL : List (Key × Node) → List (Key × Node) → Bool
   | [], [] => true
@@ -145,58 +164,109 @@ def effEqL : List (Key × Node) → List (Key × Node) → Bool
   | _, _ => false
 end
 
-theorem redundant_iff (x x' i : Option Bool) : redundant x x' i = true ↔ x' = x ∨ (x' = none ∧ x = i) := by
-  simp [redundant]
+theorem relDflt_iff {α : Type} [DecidableEq α] (d : α) (x x' : Option α) :
+    relDflt d x x' = true ↔ x' = x ∨ (x' = none ∧ x = some d) := by
+  simp [relDflt]
 
-theorem simF_iff (f f' : Flags) : simF f f' = true ↔
-    f'.prio = f.prio ∧ f'.md = f.md ∧ f'.iDel = f.iDel ∧ f'.iNew = f.iNew ∧ f'.iSafe = f.iSafe ∧
+theorem simF_iff (ic dd : Bool) (f f' : Flags) : simF ic dd f f' = true ↔
+    (f'.prio = f.prio ∨ (f'.prio = none ∧ f.prio = some Tables.defaultPriority)) ∧ f'.md = f.md ∧ f'.iDel = f.iDel ∧
+    (f'.iNew = f.iNew ∨ (f'.iNew = none ∧ f.iNew = some Tables.defaultAllowNew)) ∧ f'.iSafe = f.iSafe ∧
     f'.dSafe = f.dSafe ∧ f'.src = f.src ∧
-    (f'.del = f.del ∨ (f'.del = none ∧ f.del = f.iDel)) ∧
-    (f'.new = f.new ∨ (f'.new = none ∧ f.new = f.iNew)) ∧
-    (f'.safe = f.safe ∨ (f'.safe = none ∧ f.safe = f.iSafe)) := by
-  simp only [simF, Bool.and_eq_true, beq_iff_eq, redundant_iff, and_assoc]
+    (f'.del = f.del ∨ (f'.del = none ∧ f.del = some false ∧
+      (f.iDel = some false ∨ (ic = false ∧ f.iDel = none ∧ dd = false)))) ∧
+    (f'.new = f.new ∨ (f'.new = none ∧ f.new = some (f.iNew.getD Tables.defaultAllowNew))) ∧
+    (f'.safe = f.safe ∨ (f'.safe = none ∧ (f.iSafe = some false ∨ f.safe = f.iSafe))) := by
+  simp only [simF, Bool.and_eq_true, Bool.or_eq_true, beq_iff_eq, relDflt_iff, and_assoc, Bool.not_eq_true']
 
-theorem eDelOf_sim {f f' : Flags} {d : Bool} (h : simF f f' = true) :
-    (match f.del with | some x => x | none => match f.iDel with | some x => x | none => d) =
-    (match f'.del with | some x => x | none => match f'.iDel with | some x => x | none => d) := by
-  obtain ⟨_, _, h3, _, _, _, _, h8, _, _⟩ := (simF_iff f f').1 h
+section eff
+variable {ic dd : Bool} {f f' : Flags}
+
+theorem ePrio_sim (h : simF ic dd f f' = true) : ePrio f = ePrio f' := by
+  obtain ⟨h1, _⟩ := (simF_iff ic dd f f').1 h
+  simp only [ePrio]
+  rcases h1 with e | ⟨e1, e2⟩
+  · rw [e]
+  · rw [e1, e2]; rfl
+
+theorem eNew_sim (h : simF ic dd f f' = true) : eNew f = eNew f' := by
+  obtain ⟨_, _, _, h4, _⟩ := (simF_iff ic dd f f').1 h
+  simp only [eNew]
+  rcases h4 with e | ⟨e1, e2⟩
+  · rw [e]
+  · rw [e1, e2]; rfl
+
+theorem eDelOf_sim (h : simF ic dd f f' = true) :
+    (match f.del with | some x => x | none => match f.iDel with | some x => x | none => dd) =
+    (match f'.del with | some x => x | none => match f'.iDel with | some x => x | none => dd) := by
+  obtain ⟨_, _, h3, _, _, _, _, h8, _, _⟩ := (simF_iff ic dd f f').1 h
   rw [h3]
-  rcases h8 with e | ⟨e1, e2⟩
+  rcases h8 with e | ⟨e1, e2, e3 | ⟨_, e3, e4⟩⟩
   · rw [e]
-  · rw [e1, e2]; cases f.iDel <;> rfl
+  · rw [e1, e2, e3]
+  · rw [e1, e2, e3, e4]
 
-theorem eSafe_sim {f f' : Flags} (h : simF f f' = true) : eSafe f = eSafe f' := by
-  obtain ⟨_, _, _, _, h5, h6, _, _, _, h10⟩ := (simF_iff f f').1 h
+theorem eSafe_sim (h : simF ic dd f f' = true) : eSafe f = eSafe f' := by
+  obtain ⟨_, _, _, _, h5, h6, _, _, _, h10⟩ := (simF_iff ic dd f f').1 h
   simp only [eSafe, h5, h6]
-  rcases h10 with e | ⟨e1, e2⟩
+  rcases h10 with e | ⟨e1, e2 | e2⟩
   · rw [e]
+  · rw [e1, e2]; simp
   · rw [e1, e2]; rcases f.iSafe with _ | _ | _ <;> simp
 
-theorem effF_of_simF_leaf {f f' : Flags} {k : LeafKind} (h : simF f f' = true) :
-    effF (.leaf f k) (.leaf f' k) = true := by
-  have hd := eDelOf_sim (d := Tables.defaultDeleteNode) h
-  have hs := eSafe_sim h
-  obtain ⟨h1, h2, _, h4, _⟩ := (simF_iff f f').1 h
-  simp only [effF, Node.flags, Bool.and_eq_true, beq_iff_eq]
-  refine ⟨⟨⟨⟨?_, ?_⟩, ?_⟩, ?_⟩, ?_⟩
-  · simp only [ePrio, h1]
-  · simp only [eDel, Node.flags, Node.defaultDel]; exact hd
-  · simp only [eNew, h4]
-  · exact hs
-  · exact h2.symm
+theorem delTrue_sim (h : simF ic dd f f' = true) : (f.del == some true) = (f'.del == some true) := by
+  obtain ⟨_, _, _, _, _, _, _, h8, _, _⟩ := (simF_iff ic dd f f').1 h
+  rcases h8 with e | ⟨e1, e2, _⟩
+  · rw [e]
+  · rw [e1, e2]; rfl
 
-theorem effF_of_simF_comp {f f' : Flags} {k : CompKind} {cs cs' : List (Key × Node)} (h : simF f f' = true) :
-    effF (.comp f k cs) (.comp f' k cs') = true := by
-  have hd := eDelOf_sim (d := defaultDelete k) h
-  have hs := eSafe_sim h
-  obtain ⟨h1, h2, _, h4, _⟩ := (simF_iff f f').1 h
+theorem handsDown_sim (k : CompKind) (h : simF true dd f f' = true) :
+    handsDownEq (childKw f k) (childKw f' k) = true := by
+  obtain ⟨_, _, h3, h4, h5, _, _, h8, h9, h10⟩ := (simF_iff true dd f f').1 h
+  have hdel : f.del.or (f.iDel.or (if defaultDelete k then some true else none)) =
+      f'.del.or (f'.iDel.or (if defaultDelete k then some true else none)) := by
+    rw [h3]
+    rcases h8 with e | ⟨e1, e2, e3 | ⟨e3, _⟩⟩
+    · rw [e]
+    · rw [e1, e2, e3]; rfl
+    · cases e3
+  have hsafe : (if f.iSafe = some false then some false else f.safe.or f.iSafe) =
+      (if f'.iSafe = some false then some false else f'.safe.or f'.iSafe) := by
+    rw [h5]
+    rcases h10 with e | ⟨e1, e2 | e2⟩
+    · rw [e]
+    · rw [e1, e2]; simp
+    · rw [e1, e2]; rcases f.iSafe with _ | _ | _ <;> simp
+  have hnew : (f.new.or f.iNew).getD Tables.defaultAllowNew = (f'.new.or f'.iNew).getD Tables.defaultAllowNew := by
+    rcases h9 with e | ⟨e1, e2⟩
+    · rw [e]
+      rcases h4 with e' | ⟨e1', e2'⟩
+      · rw [e']
+      · rw [e1', e2']; cases f.new <;> simp
+    · rw [e1, e2]
+      rcases h4 with e' | ⟨e1', e2'⟩
+      · rw [e']; cases f.iNew <;> simp
+      · rw [e1', e2']; simp
+  cases k <;> simp only [childKw, handsDownEq, Bool.and_eq_true, beq_iff_eq] <;> first
+    | rfl
+    | exact ⟨⟨hdel, hsafe⟩, hnew⟩
+
+end eff
+
+theorem effF_of_simF_leaf {f f' : Flags} {k : LeafKind} (h : simF false Tables.defaultDeleteNode f f' = true) :
+    effF (.leaf f k) (.leaf f' k) = true := by
+  have hd := eDelOf_sim h
+  obtain ⟨_, h2, _⟩ := (simF_iff _ _ f f').1 h
   simp only [effF, Node.flags, Bool.and_eq_true, beq_iff_eq]
-  refine ⟨⟨⟨⟨?_, ?_⟩, ?_⟩, ?_⟩, ?_⟩
-  · simp only [ePrio, h1]
-  · simp only [eDel, Node.flags, Node.defaultDel]; exact hd
-  · simp only [eNew, h4]
-  · exact hs
-  · exact h2.symm
+  refine ⟨⟨⟨⟨⟨ePrio_sim h, ?_⟩, eNew_sim h⟩, eSafe_sim h⟩, h2.symm⟩, delTrue_sim h⟩
+  simp only [eDel, Node.flags, Node.defaultDel]; exact hd
+
+theorem effF_of_simF_comp {f f' : Flags} {k : CompKind} {cs cs' : List (Key × Node)}
+    (h : simF true (defaultDelete k) f f' = true) : effF (.comp f k cs) (.comp f' k cs') = true := by
+  have hd := eDelOf_sim h
+  obtain ⟨_, h2, _⟩ := (simF_iff _ _ f f').1 h
+  simp only [effF, Node.flags, Bool.and_eq_true, beq_iff_eq]
+  refine ⟨⟨⟨⟨⟨ePrio_sim h, ?_⟩, eNew_sim h⟩, eSafe_sim h⟩, h2.symm⟩, delTrue_sim h⟩
+  simp only [eDel, Node.flags, Node.defaultDel]; exact hd
 
 mutual
 theorem effEq_of_simN : ∀ (n n' : Node), simN n n' = true → effEq n n' = true
@@ -207,7 +277,7 @@ theorem effEq_of_simN : ∀ (n n' : Node), simN n n' = true → effEq n n' = tru
   | .comp f k cs, .comp f' k' cs', h => by
     simp only [simN, Bool.and_eq_true, beq_iff_eq] at h
     obtain ⟨⟨h1, rfl⟩, h3⟩ := h
-    simp [effEq, effF_of_simF_comp h1, effEqL_of_simL cs cs' h3]
+    simp [effEq, effF_of_simF_comp h1, handsDown_sim k h1, effEqL_of_simL cs cs' h3]
   | .leaf _ _, .comp _ _ _, h => by simp [simN] at h
   | .comp _ _ _, .leaf _ _, h => by simp [simN] at h
 theorem effEqL_of_simL : ∀ (l l' : List (Key × Node)), simL l l' = true → effEqL l l' = true
@@ -222,98 +292,213 @@ end
 
 /-! ### one node -/
 
-/-- the priority on the dumper's stack is the priority imposed on the subtree -/
-def StackInv (st : DStack) (c : BCtx) : Prop := ∀ q, st.prio = some q → c.o = some q
-
 section core
-variable (env : Env) (c : BCtx) (x : CtorKw) (st : DStack) (dflt : Bool)
+variable (env : Env) (c : BCtx) (x : CtorKw) (st : DStack) (ic dflt : Bool)
 
-theorem core_prio (hinv : StackInv st c) (hok : okF st (nodeFlags env c x) dflt = true) :
-    c.o.or (infoOf st (nodeFlags env c x) dflt).prio = c.o.or x.prio := by
-  obtain ⟨hp, _⟩ := (okF_iff _ _ _).1 hok
-  cases ho : c.o with
-  | some p => rfl
+/-- the keywords the dumper writes for a node with effective keywords `x` in context `c` -/
+abbrev infoX : CtorKw := infoOf st (nodeFlags env c x) ic dflt
+
+theorem infoX_prio : (infoX env c x st ic dflt).prio = keepFlag (c.o.or x.prio) st.prio (some Tables.defaultPriority) := rfl
+theorem infoX_del : (infoX env c x st ic dflt).del = keepDel false ic x.del st.del dflt := rfl
+theorem infoX_new : (infoX env c x st ic dflt).new = keepFlag x.new st.new (some Tables.defaultAllowNew) := rfl
+theorem infoX_safe : (infoX env c x st ic dflt).safe = keepFlag x.safe st.safe none := rfl
+theorem infoX_md : (infoX env c x st ic dflt).md = x.md := rfl
+
+/-- under a stated priority the node's priority is that priority and is not written -/
+theorem prio_under (hinv : Inv st c) {q : Int} (hq : st.prio = some q) :
+    c.o.or x.prio = some q ∧ (infoX env c x st ic dflt).prio = none := by
+  have ho := hinv.prio1 q hq
+  refine ⟨by rw [ho]; rfl, ?_⟩
+  rw [infoX_prio, ho, hq]
+  exact keepFlag_stack q _
+
+/-- the priority of the re-parsed node -/
+theorem core_prio (hinv : Inv st c) :
+    st.prio.or (infoX env c x st ic dflt).prio = c.o.or x.prio ∨
+      (st.prio.or (infoX env c x st ic dflt).prio = none ∧ c.o.or x.prio = some Tables.defaultPriority) := by
+  cases hs : st.prio with
+  | some q =>
+    obtain ⟨h1, h2⟩ := prio_under env c x st ic dflt hinv hs
+    left
+    rw [h1]; rfl
   | none =>
-    have hst : st.prio = none := by
-      cases hs : st.prio with
-      | none => rfl
-      | some q => have := hinv q hs; rw [ho] at this; cases this
-    simp only [nodeFlags, ho, Option.none_or] at hp
-    simp only [infoOf, nodeFlags, ho, Option.none_or, hst]
-    exact keepFlag_none_stack _ _ hp
+    have hi : (infoX env c x st ic dflt).prio = keepFlag (c.o.or x.prio) none (some Tables.defaultPriority) := by
+      rw [infoX_prio, hs]
+    rw [hi]
+    rcases keepFlag_cases (c.o.or x.prio) none (some Tables.defaultPriority) with e | ⟨e1, e2⟩
+    · exact .inl e
+    · exact .inr ⟨e1, e2⟩
 
-theorem core_child (hinv : StackInv st c) (hok : okF st (nodeFlags env c x) dflt = true) (k : CompKind) :
-    childCtx c (infoOf st (nodeFlags env c x) dflt) k = childCtx c x k := by
-  obtain ⟨_, hd, hn, _, hs2, ad, an, as⟩ := (okF_iff _ _ _).1 hok
-  have h1 := core_prio env c x st dflt hinv hok
-  simp only [nodeFlags] at hd hn hs2 ad an as
-  simp only [childCtx, h1, BCtx.mk.injEq, true_and]
-  refine ⟨?_, ?_, ?_⟩
-  · rcases keep_cases x.del st.del c.d dflt hd ad with e | ⟨e1, e2⟩
-    · simp only [infoOf, nodeFlags, e]
-    · simp only [infoOf, nodeFlags, e1, Option.none_or]; exact or_redundant _ _ _ e2
-  · rcases keep_cases x.new st.new c.nw Tables.defaultAllowNew hn an with e | ⟨e1, e2⟩
-    · simp only [infoOf, nodeFlags, e]
-    · simp only [infoOf, nodeFlags, e1, Option.none_or]; exact or_redundant' _ _ e2
-  · rcases keep_cases x.safe st.safe c.s env.dSafe hs2 as with e | ⟨e1, e2⟩
-    · simp only [infoOf, nodeFlags, e]
-    · simp only [infoOf, nodeFlags, e1, Option.none_or]
-      split
-      · rfl
-      · exact or_redundant' _ _ e2
-
-theorem core_sim (hinv : StackInv st c) (hok : okF st (nodeFlags env c x) dflt = true) :
-    simF (nodeFlags env c x) (nodeFlags env c (infoOf st (nodeFlags env c x) dflt)) = true := by
-  obtain ⟨_, hd, hn, _, hs2, ad, an, as⟩ := (okF_iff _ _ _).1 hok
-  have h1 := core_prio env c x st dflt hinv hok
-  simp only [nodeFlags] at hd hn hs2 ad an as
+theorem core_sim (hinv : Inv st c) :
+    simF ic dflt (nodeFlags env c x) (nodeFlags env (rc c st) (infoX env c x st ic dflt)) = true := by
   rw [simF_iff]
-  refine ⟨h1, rfl, rfl, rfl, rfl, rfl, rfl, ?_, ?_, ?_⟩
-  · rcases keep_cases x.del st.del c.d dflt hd ad with e | ⟨e1, e2⟩
-    · exact .inl e
-    · exact .inr ⟨e1, e2⟩
-  · rcases keep_cases x.new st.new c.nw Tables.defaultAllowNew hn an with e | ⟨e1, e2⟩
-    · exact .inl e
-    · exact .inr ⟨e1, e2⟩
-  · rcases keep_cases x.safe st.safe c.s env.dSafe hs2 as with e | ⟨e1, e2⟩
-    · exact .inl e
-    · exact .inr ⟨e1, e2⟩
-
-theorem core_idem (hinv : StackInv st c) (hok : okF st (nodeFlags env c x) dflt = true) :
-    infoOf st (nodeFlags env c (infoOf st (nodeFlags env c x) dflt)) dflt =
-      infoOf st (nodeFlags env c x) dflt := by
-  have h1 := core_prio env c x st dflt hinv hok
-  have e : ∀ y : CtorKw, infoOf st (nodeFlags env c y) dflt =
-      { prio := keepFlag (c.o.or y.prio) st.prio Tables.defaultPriority, del := keepFlag y.del st.del dflt,
-        new := keepFlag y.new st.new Tables.defaultAllowNew, safe := keepFlag y.safe st.safe env.dSafe,
-        md := y.md } := fun _ => rfl
-  rw [e (infoOf st (nodeFlags env c x) dflt), h1, e x]
-  simp only [keepFlag_idem]
-
-theorem core_safe (hok : okF st (nodeFlags env c x) dflt = true) :
-    (infoOf st (nodeFlags env c x) dflt).safe ≠ some true := by
-  obtain ⟨_, _, _, hs1, _⟩ := (okF_iff _ _ _).1 hok
-  intro h
-  exact hs1 (keepFlag_some h)
-
-theorem core_inv (hinv : StackInv st c) (k : CompKind) :
-    StackInv (pushStack st false (infoOf st (nodeFlags env c x) dflt)) (childCtx c x k) := by
-  intro q hq
-  simp only [pushStack] at hq
-  split at hq
-  · simp only [childCtx, hinv q hq]; rfl
-  · simp only at hq
-    cases hk : (infoOf st (nodeFlags env c x) dflt).prio with
-    | some p =>
-      rw [hk] at hq
-      have hpq : p = q := by simpa using hq
-      have : c.o.or x.prio = some p :=
-        keepFlag_some (show keepFlag (c.o.or x.prio) st.prio Tables.defaultPriority = some p from hk)
-      simp only [childCtx, this, hpq]
+  refine ⟨core_prio env c x st ic dflt hinv, rfl, rfl, ?_, rfl, rfl, rfl, ?_, ?_, ?_⟩
+  · -- inherited allow_new
+    show st.new = c.nw ∨ (st.new = none ∧ c.nw = some Tables.defaultAllowNew)
+    cases hs : st.new with
+    | some b => exact .inl (hinv.new1 b hs).symm
     | none =>
-      rw [hk] at hq
-      simp only [Option.none_or] at hq
-      simp only [childCtx, hinv q hq]; rfl
+      rcases hinv.new0 hs with e | e
+      · exact .inl e.symm
+      · exact .inr ⟨rfl, e⟩
+  · -- delete
+    show keepDel false ic x.del st.del dflt = x.del ∨ _
+    rcases keepDel_cases ic x.del st.del dflt with e | ⟨e1, e2, e3 | ⟨e3, e4, e5⟩⟩
+    · exact .inl e
+    · exact .inr ⟨e1, e2, .inl (by show c.d = some false; rw [← hinv.del]; exact e3)⟩
+    · refine .inr ⟨e1, e2, .inr ⟨e4, ?_, e5⟩⟩
+      show c.d = none
+      rw [← hinv.del]; exact e3
+  · -- allow_new
+    show keepFlag x.new st.new (some Tables.defaultAllowNew) = x.new ∨ _
+    rcases keepFlag_cases x.new st.new (some Tables.defaultAllowNew) with e | ⟨e1, e2⟩
+    · exact .inl e
+    · refine .inr ⟨e1, ?_⟩
+      show x.new = some (c.nw.getD Tables.defaultAllowNew)
+      rw [e2]
+      cases hs : st.new with
+      | some b => rw [hinv.new1 b hs]; rfl
+      | none => rcases hinv.new0 hs with e | e <;> rw [e] <;> rfl
+  · -- safe
+    show keepFlag x.safe st.safe none = x.safe ∨ _
+    rcases keepFlag_cases x.safe st.safe none with e | ⟨e1, e2⟩
+    · exact .inl e
+    · cases hs : st.safe with
+      | none =>
+        rw [hs] at e2
+        left; rw [show x.safe = none from e2]; rfl
+      | some b =>
+        rw [hs] at e2
+        refine .inr ⟨e1, ?_⟩
+        show c.s = some false ∨ x.safe = c.s
+        rcases hinv.safe1 b hs with h | h
+        · exact .inl h
+        · exact .inr (by rw [show x.safe = some b from e2, h])
+
+/-- the re-parse context of the children is the child context of the re-parsed node -/
+theorem core_child (hinv : Inv st c) (k : CompKind) :
+    rc (childCtx c x k) (pushStack st (infoX env c x st true dflt) (childCtx c x k).d) =
+      childCtx (rc c st) (infoX env c x st true dflt) k := by
+  simp only [rc, childCtx, pushStack, BCtx.mk.injEq]
+  refine ⟨?_, ?_, trivial, ?_⟩
+  · cases hs : st.prio with
+    | some q => rw [(prio_under env c x st true dflt hinv hs).2]; rfl
+    | none => cases (infoX env c x st true dflt).prio <;> rfl
+  · rw [infoX_del]
+    rcases keepDel_cases true x.del st.del dflt with e | ⟨e1, e2, e3 | ⟨_, e4, _⟩⟩
+    · rw [e]
+    · rw [e1, e2, ← hinv.del, e3]; rfl
+    · cases e4
+  · by_cases hcs : c.s = some false
+    · simp only [hcs, if_true]
+    · simp only [hcs, if_false]
+      rw [infoX_safe]
+      rcases keepFlag_cases x.safe st.safe none with e | ⟨e1, e2⟩
+      · rw [e]
+      · rw [e1]
+        cases hs : st.safe with
+        | none => rw [hs] at e2; rw [show x.safe = none from e2]
+        | some b =>
+          rw [hs] at e2
+          rcases hinv.safe1 b hs with h | h
+          · exact absurd h hcs
+          · rw [show x.safe = some b from e2, h]; rfl
+
+theorem core_inv (hinv : Inv st c) (k : CompKind) :
+    Inv (pushStack st (infoX env c x st true dflt) (childCtx c x k).d) (childCtx c x k) := by
+  refine ⟨?_, ?_, ?_, ?_, ?_, ?_⟩
+  · intro q hq
+    show c.o.or x.prio = some q
+    cases hs : st.prio with
+    | some p =>
+      obtain ⟨h1, h2⟩ := prio_under env c x st true dflt hinv hs
+      simp only [pushStack, h2, hs, Option.none_or] at hq
+      rw [h1, hq]
+    | none =>
+      simp only [pushStack, hs, Option.or_none] at hq
+      exact keepFlag_some (infoX_prio env c x st true dflt ▸ hq)
+  · intro hq
+    show c.o.or x.prio = none ∨ c.o.or x.prio = some Tables.defaultPriority
+    have h1 : (infoX env c x st true dflt).prio = none ∧ st.prio = none := by
+      simp only [pushStack] at hq
+      cases hi : (infoX env c x st true dflt).prio <;> simp_all
+    have hst := h1.2
+    rw [infoX_prio, hst] at h1
+    rcases keepFlag_cases (c.o.or x.prio) none (some Tables.defaultPriority) with e | ⟨_, e2⟩
+    · rw [h1.1] at e; exact .inl e.symm
+    · exact .inr e2
+  · show (childCtx c x k).d.or ((infoX env c x st true dflt).del.or st.del) = (childCtx c x k).d
+    cases hh : (childCtx c x k).d with
+    | some b => rfl
+    | none =>
+      have hx : x.del = none ∧ c.d = none := by
+        simp only [childCtx] at hh
+        cases hx : x.del <;> cases hc : c.d <;> simp_all
+      rw [infoX_del, hx.1, hinv.del, hx.2]
+      rfl
+  · intro b hb
+    show x.new.or c.nw = some b
+    simp only [pushStack] at hb
+    rw [infoX_new] at hb
+    rcases keepFlag_cases x.new st.new (some Tables.defaultAllowNew) with e | ⟨e1, e2⟩
+    · rw [e] at hb
+      cases hx : x.new with
+      | some v => rw [hx] at hb; simpa using hb
+      | none => rw [hx] at hb; simp only [Option.none_or] at hb ⊢; exact hinv.new1 b hb
+    · rw [e1] at hb; simp only [Option.none_or] at hb
+      rw [e2, hb]; rfl
+  · intro hb
+    show x.new.or c.nw = none ∨ x.new.or c.nw = some Tables.defaultAllowNew
+    have h1 : (infoX env c x st true dflt).new = none ∧ st.new = none := by
+      simp only [pushStack] at hb
+      cases hi : (infoX env c x st true dflt).new <;> simp_all
+    have hst := h1.2
+    rw [infoX_new, hst] at h1
+    rcases keepFlag_cases x.new none (some Tables.defaultAllowNew) with e | ⟨_, e2⟩
+    · rw [h1.1] at e; rw [← e]; simpa using hinv.new0 hst
+    · right; rw [e2]; rfl
+  · intro b hb
+    show (if c.s = some false then some false else x.safe.or c.s) = some false ∨
+      (if c.s = some false then some false else x.safe.or c.s) = some b
+    split
+    · exact .inl rfl
+    · rename_i hne
+      right
+      simp only [pushStack] at hb
+      rw [infoX_safe] at hb
+      rcases keepFlag_cases x.safe st.safe none with e | ⟨e1, e2⟩
+      · rw [e] at hb
+        cases hx : x.safe with
+        | some v => rw [hx] at hb; simpa using hb
+        | none =>
+          rw [hx] at hb; simp only [Option.none_or] at hb ⊢
+          rcases hinv.safe1 b hb with h | h
+          · exact absurd h hne
+          · exact h
+      · rw [e1] at hb; simp only [Option.none_or] at hb
+        rw [hb] at e2
+        rw [e2]; rfl
+
+/-- dumping the re-parsed node writes the same keywords -/
+theorem core_idem (hinv : Inv st c) :
+    infoOf st (nodeFlags env (rc c st) (infoX env c x st ic dflt)) ic dflt = infoX env c x st ic dflt := by
+  have hp : keepFlag (st.prio.or (infoX env c x st ic dflt).prio) st.prio (some Tables.defaultPriority) =
+      (infoX env c x st ic dflt).prio := by
+    cases hs : st.prio with
+    | some q =>
+      rw [(prio_under env c x st ic dflt hinv hs).2]
+      exact keepFlag_stack q _
+    | none =>
+      simp only [Option.none_or]
+      rw [infoX_prio, hs]; exact keepFlag_idem _ _ _
+  show ({ prio := keepFlag (st.prio.or (infoX env c x st ic dflt).prio) st.prio (some Tables.defaultPriority),
+          del := keepDel false ic (infoX env c x st ic dflt).del st.del dflt,
+          new := keepFlag (infoX env c x st ic dflt).new st.new (some Tables.defaultAllowNew),
+          safe := keepFlag (infoX env c x st ic dflt).safe st.safe none,
+          md := (infoX env c x st ic dflt).md } : CtorKw) = infoX env c x st ic dflt
+  rw [hp, infoX_del, keepDel_idem, infoX_new, keepFlag_idem, infoX_safe, keepFlag_idem]
+  rfl
+
 end core
 
 /-! ### tags written by the dumper -/
@@ -347,178 +532,134 @@ theorem tagMC_plainTag (kw : CtorKw) : tagMC (plainTag kw) = true := by
 
 theorem representLeaf_nonnull (st : DStack) (f : Flags) {v : Scalar} (hv : v ≠ .null) :
     representLeaf st f (.scalar v) =
-      .ok (.scalar (plainTag (nodeInfo st (.leaf f (.scalar v)))) (nodeInfo st (.leaf f (.scalar v))) (.lit v)) := by
+      .scalar (plainTag (nodeInfo st (.leaf f (.scalar v)))) (nodeInfo st (.leaf f (.scalar v))) (.lit v) := by
   cases v <;> first | (exact absurd rfl hv) | rfl
 
 /-! ### the round trip on closed forms -/
 
-/-- dump, re-parse in the same context, dump again -/
+/-- dump; the dump is in the vocabulary; re-parsed in the re-parse context it gives a related tree;
+    which dumps to the same dump -/
 def RTc (env : Env) (c : BCtx) (st : DStack) (r : Raw) : Prop :=
-  ∃ r', representWith st (build env c r) = .ok r' ∧ rawMC r' = true ∧
-    simN (build env c r) (build env c r') = true ∧ representWith st (build env c r') = .ok r'
+  rawMC (representWith st (build env c r)) = true ∧
+  simN (build env c r) (build env (rc c st) (representWith st (build env c r))) = true ∧
+  representWith st (build env (rc c st) (representWith st (build env c r))) = representWith st (build env c r)
 
 theorem rt_scalar (env : Env) (c : BCtx) (st : DStack) (t : TagKind) (kw : CtorKw) (v : RVal)
-    (hinv : StackInv st c) (hned : nedWith st (build env c (.scalar t kw v)) = true) :
-    RTc env c st (.scalar t kw v) := by
-  have hok : okF st (nodeFlags env c (skw t kw v)) Tables.defaultDeleteNode = true := by
-    simpa [build, nedWith] using hned
-  have hsim := core_sim env c _ st _ hinv hok
-  have hidem := core_idem env c _ st _ hinv hok
-  have hsafe := core_safe env c _ st _ hok
+    (hinv : Inv st c) : RTc env c st (.scalar t kw v) := by
+  have hsim := core_sim env c (skw t kw v) st false Tables.defaultDeleteNode hinv
+  have hidem := core_idem env c (skw t kw v) st false Tables.defaultDeleteNode hinv
   by_cases hnull : v.toScalar = .null
-  · refine ⟨.scalar .null (infoOf st (nodeFlags env c (skw t kw v)) Tables.defaultDeleteNode) .empty, ?_, rfl, ?_, ?_⟩
-    · simp only [build, representWith, hnull]; rfl
-    · simp only [build, skw_null, toScalar_empty, simN, hnull, hsim, beq_self_eq_true, Bool.and_self]
-    · simp only [build, skw_null, toScalar_empty, representWith, representLeaf, nodeInfo_eq, Node.flags,
-        Node.defaultDel, hidem]
-  · refine ⟨.scalar (plainTag (infoOf st (nodeFlags env c (skw t kw v)) Tables.defaultDeleteNode))
-      (infoOf st (nodeFlags env c (skw t kw v)) Tables.defaultDeleteNode) (.lit v.toScalar), ?_, ?_, ?_, ?_⟩
-    · simp only [build, representWith, representLeaf_nonnull st _ hnull, nodeInfo_eq, Node.flags,
-        Node.defaultDel]
-    · simp [rawMC, tagMC_plainTag]
-    · simp only [build, skw_plainTag _ hnull, toScalar_lit, simN, hsim, beq_self_eq_true, Bool.and_self]
-    · simp only [build, skw_plainTag _ hnull, toScalar_lit, representWith, representLeaf_nonnull st _ hnull,
-        nodeInfo_eq, Node.flags, Node.defaultDel, hidem]
+  · have hr : representWith st (build env c (.scalar t kw v)) =
+        .scalar .null (infoX env c (skw t kw v) st false Tables.defaultDeleteNode) .empty := by
+      simp only [build, representWith, hnull]; rfl
+    refine ⟨by rw [hr]; rfl, ?_, ?_⟩
+    · rw [hr]
+      simp only [build, skw_null, toScalar_empty, simN, hnull, hsim, beq_self_eq_true, Bool.and_self]
+    · rw [hr]
+      simp only [build, skw_null, toScalar_empty, representWith, representLeaf, nodeInfo_leaf, hidem]
+  · have hr : representWith st (build env c (.scalar t kw v)) =
+        .scalar (plainTag (infoX env c (skw t kw v) st false Tables.defaultDeleteNode))
+          (infoX env c (skw t kw v) st false Tables.defaultDeleteNode) (.lit v.toScalar) := by
+      simp only [build, representWith, representLeaf_nonnull st _ hnull, nodeInfo_leaf]
+    refine ⟨by rw [hr]; simp [rawMC, tagMC_plainTag], ?_, ?_⟩
+    · rw [hr]
+      simp only [build, skw_plainTag _ hnull, toScalar_lit, simN, hsim, beq_self_eq_true, Bool.and_self]
+    · rw [hr]
+      simp only [build, skw_plainTag _ hnull, toScalar_lit, representWith, representLeaf_nonnull st _ hnull,
+        nodeInfo_leaf, hidem]
 
-theorem representComp_list {kw : CtorKw} (items : List Raw) (_h : kw.safe ≠ some true) :
-    representComp .list kw items [] = .ok (.seq (plainTag kw) kw items) := by
-  simp [representComp]
+theorem handed_list (env : Env) (c : BCtx) (x : CtorKw) :
+    handedDelete (nodeFlags env c x) .list = (childCtx c x .list).d := rfl
+theorem handed_dict (env : Env) (c : BCtx) (x : CtorKw) :
+    handedDelete (nodeFlags env c x) .dict = (childCtx c x .dict).d := rfl
 
-theorem representComp_dict {kw : CtorKw} (items : List (Key × Raw)) (_h : kw.safe ≠ some true) :
-    representComp .dict kw [] items = .ok (.map (plainTag kw) kw items) := by
-  simp [representComp]
+/-- the re-parsed container hands down the same `delete` -/
+theorem handed_rc (env : Env) (c : BCtx) (x : CtorKw) (st : DStack) (dflt : Bool) (hinv : Inv st c) (k : CompKind) :
+    (childCtx (rc c st) (infoX env c x st true dflt) k).d = (childCtx c x k).d := by
+  have := congrArg BCtx.d (core_child env c x st dflt hinv k)
+  simpa [rc] using this.symm
 
 mutual
-theorem rt_build (env : Env) : ∀ (r : Raw) (c : BCtx) (st : DStack), rawMC r = true → StackInv st c →
-    nedWith st (build env c r) = true → RTc env c st r
-  | .scalar t kw v, c, st, _, hinv, hned => rt_scalar env c st t kw v hinv hned
-  | .seq t kw items, c, st, h, hinv, hned => by
+theorem rt_build (env : Env) : ∀ (r : Raw) (c : BCtx) (st : DStack), rawMC r = true → Inv st c → RTc env c st r
+  | .scalar t kw v, c, st, _, hinv => rt_scalar env c st t kw v hinv
+  | .seq t kw items, c, st, h, hinv => by
     have h' : tagMC t = true ∧ rawMCList items = true := by simpa [rawMC] using h
-    have hned' : okF st (nodeFlags env c (ekw t kw)) (defaultDelete .list) = true ∧
-        nedList (pushStack st false (infoOf st (nodeFlags env c (ekw t kw)) (defaultDelete .list)))
-          (buildList env (childCtx c (ekw t kw) .list) 0 items) = true := by
-      simpa [build, nedWith, nodeInfo_eq, Node.flags, Node.defaultDel, CompKind.tagged] using hned
-    obtain ⟨hok, hch⟩ := hned'
-    have hsim := core_sim env c _ st _ hinv hok
-    have hidem := core_idem env c _ st _ hinv hok
-    have hsafe := core_safe env c _ st _ hok
-    have hcc := core_child env c _ st _ hinv hok .list
-    obtain ⟨items', i1, i2, i3, i4⟩ := rt_list env items (childCtx c (ekw t kw) .list) _ 0 h'.2
-      (core_inv env c _ st _ hinv .list) hch
-    refine ⟨.seq (plainTag (infoOf st (nodeFlags env c (ekw t kw)) (defaultDelete .list)))
-      (infoOf st (nodeFlags env c (ekw t kw)) (defaultDelete .list)) items', ?_, ?_, ?_, ?_⟩
-    · simp only [build, representWith, nodeInfo_eq, Node.flags, Node.defaultDel, CompKind.tagged,
-        CompKind.isDictFam, Bool.false_eq_true, if_false, i1, representComp_list _ hsafe]
-    · simp [rawMC, tagMC_plainTag, i2]
-    · simp only [build, ekw_plainTag, hcc, simN, hsim, i3, beq_self_eq_true, Bool.and_self]
-    · simp only [build, ekw_plainTag, hcc, representWith, nodeInfo_eq, Node.flags, Node.defaultDel,
-        CompKind.tagged, CompKind.isDictFam, Bool.false_eq_true, if_false, hidem, i4,
-        representComp_list _ hsafe]
-  | .map t kw items, c, st, h, hinv, hned => by
+    have hsim := core_sim env c (ekw t kw) st true (defaultDelete .list) hinv
+    have hidem := core_idem env c (ekw t kw) st true (defaultDelete .list) hinv
+    have hcc := core_child env c (ekw t kw) st (defaultDelete .list) hinv .list
+    have hhd := handed_rc env c (ekw t kw) st (defaultDelete .list) hinv .list
+    obtain ⟨i2, i3, i4⟩ := rt_list env items (childCtx c (ekw t kw) .list) _ 0 h'.2
+      (core_inv env c (ekw t kw) st (defaultDelete .list) hinv .list)
+    rw [hcc] at i3 i4
+    have hr : representWith st (build env c (.seq t kw items)) =
+        .seq (plainTag (infoX env c (ekw t kw) st true (defaultDelete .list)))
+          (infoX env c (ekw t kw) st true (defaultDelete .list))
+          (representSeq (pushStack st (infoX env c (ekw t kw) st true (defaultDelete .list)) (childCtx c (ekw t kw) .list).d)
+            (buildList env (childCtx c (ekw t kw) .list) 0 items)) := by
+      simp only [build, representWith, nodeInfo_list, handed_list, CompKind.isDictFam, Bool.false_eq_true, if_false,
+        representComp]
+    refine ⟨by rw [hr]; simp [rawMC, tagMC_plainTag, i2], ?_, ?_⟩
+    · rw [hr]
+      simp only [build, ekw_plainTag, simN, hsim, i3, beq_self_eq_true, Bool.and_self]
+    · rw [hr]
+      simp only [build, ekw_plainTag, representWith, nodeInfo_list, handed_list, hhd, CompKind.isDictFam,
+        Bool.false_eq_true, if_false, representComp, hidem, i4]
+  | .map t kw items, c, st, h, hinv => by
     have h' : (tagMC t = true ∧ rawKeysNodup items = true) ∧ rawMCMap items = true := by
       simpa [rawMC] using h
-    have hned' : okF st (nodeFlags env c (ekw t kw)) (defaultDelete .dict) = true ∧
-        nedList (pushStack st false (infoOf st (nodeFlags env c (ekw t kw)) (defaultDelete .dict)))
-          (buildMap env (childCtx c (ekw t kw) .dict) items) = true := by
-      simpa [build, nedWith, nodeInfo_eq, Node.flags, Node.defaultDel, CompKind.tagged] using hned
-    obtain ⟨hok, hch⟩ := hned'
-    have hsim := core_sim env c _ st _ hinv hok
-    have hidem := core_idem env c _ st _ hinv hok
-    have hsafe := core_safe env c _ st _ hok
-    have hcc := core_child env c _ st _ hinv hok .dict
-    obtain ⟨items', i1, i2, i3, i4, i5, i6⟩ := rt_map env items (childCtx c (ekw t kw) .dict) _ h'.2
-      (core_inv env c _ st _ hinv .dict) hch
-    refine ⟨.map (plainTag (infoOf st (nodeFlags env c (ekw t kw)) (defaultDelete .dict)))
-      (infoOf st (nodeFlags env c (ekw t kw)) (defaultDelete .dict)) items', ?_, ?_, ?_, ?_⟩
-    · simp only [build, representWith, nodeInfo_eq, Node.flags, Node.defaultDel, CompKind.tagged,
-        CompKind.isDictFam, if_true, i1, representComp_dict _ hsafe]
-    · simp [rawMC, tagMC_plainTag, i2, i6, h'.1.2]
-    · simp only [build, ekw_plainTag, hcc, simN, hsim, i3, beq_self_eq_true, Bool.and_self]
-    · simp only [build, ekw_plainTag, hcc, representWith, nodeInfo_eq, Node.flags, Node.defaultDel,
-        CompKind.tagged, CompKind.isDictFam, if_true, hidem, i4, representComp_dict _ hsafe]
+    have hsim := core_sim env c (ekw t kw) st true (defaultDelete .dict) hinv
+    have hidem := core_idem env c (ekw t kw) st true (defaultDelete .dict) hinv
+    have hcc := core_child env c (ekw t kw) st (defaultDelete .dict) hinv .dict
+    have hhd := handed_rc env c (ekw t kw) st (defaultDelete .dict) hinv .dict
+    obtain ⟨i2, i3, i4, i5, i6⟩ := rt_map env items (childCtx c (ekw t kw) .dict) _ h'.2
+      (core_inv env c (ekw t kw) st (defaultDelete .dict) hinv .dict)
+    rw [hcc] at i3 i4
+    have hr : representWith st (build env c (.map t kw items)) =
+        .map (plainTag (infoX env c (ekw t kw) st true (defaultDelete .dict)))
+          (infoX env c (ekw t kw) st true (defaultDelete .dict))
+          (representMap (pushStack st (infoX env c (ekw t kw) st true (defaultDelete .dict)) (childCtx c (ekw t kw) .dict).d)
+            (buildMap env (childCtx c (ekw t kw) .dict) items)) := by
+      simp only [build, representWith, nodeInfo_dict, handed_dict, CompKind.isDictFam, if_true, representComp]
+    refine ⟨by rw [hr]; simp [rawMC, tagMC_plainTag, i2, i6, h'.1.2], ?_, ?_⟩
+    · rw [hr]
+      simp only [build, ekw_plainTag, simN, hsim, i3, beq_self_eq_true, Bool.and_self]
+    · rw [hr]
+      simp only [build, ekw_plainTag, representWith, nodeInfo_dict, handed_dict, hhd, CompKind.isDictFam, if_true,
+        representComp, hidem, i4]
 theorem rt_list (env : Env) : ∀ (items : List Raw) (c : BCtx) (st : DStack) (i : Nat),
-    rawMCList items = true → StackInv st c → nedList st (buildList env c i items) = true →
-    ∃ items', representSeq st (buildList env c i items) = .ok items' ∧ rawMCList items' = true ∧
-      simL (buildList env c i items) (buildList env c i items') = true ∧
-      representSeq st (buildList env c i items') = .ok items'
-  | [], _, _, _, _, _, _ => ⟨[], rfl, rfl, rfl, rfl⟩
-  | r :: rest, c, st, i, h, hinv, hned => by
+    rawMCList items = true → Inv st c →
+    rawMCList (representSeq st (buildList env c i items)) = true ∧
+      simL (buildList env c i items) (buildList env (rc c st) i (representSeq st (buildList env c i items))) = true ∧
+      representSeq st (buildList env (rc c st) i (representSeq st (buildList env c i items))) =
+        representSeq st (buildList env c i items)
+  | [], _, _, _, _, _ => ⟨rfl, rfl, rfl⟩
+  | r :: rest, c, st, i, h, hinv => by
     have h' : rawMC r = true ∧ rawMCList rest = true := by simpa [rawMCList] using h
-    have hned' : nedWith st (build env c r) = true ∧ nedList st (buildList env c (i + 1) rest) = true := by
-      simpa [buildList, nedList] using hned
-    obtain ⟨r', a1, a2, a3, a4⟩ := rt_build env r c st h'.1 hinv hned'.1
-    obtain ⟨rest', b1, b2, b3, b4⟩ := rt_list env rest c st (i + 1) h'.2 hinv hned'.2
-    refine ⟨r' :: rest', ?_, ?_, ?_, ?_⟩
-    · simp only [buildList, representSeq, a1, b1]
-    · simp [rawMCList, a2, b2]
-    · simp only [buildList, simL, a3, b3, beq_self_eq_true, Bool.and_self]
+    obtain ⟨a2, a3, a4⟩ := rt_build env r c st h'.1 hinv
+    obtain ⟨b2, b3, b4⟩ := rt_list env rest c st (i + 1) h'.2 hinv
+    refine ⟨?_, ?_, ?_⟩
+    · simp [buildList, representSeq, rawMCList, a2, b2]
+    · simp only [buildList, representSeq, simL, a3, b3, beq_self_eq_true, Bool.and_self]
     · simp only [buildList, representSeq, a4, b4]
 theorem rt_map (env : Env) : ∀ (items : List (Key × Raw)) (c : BCtx) (st : DStack),
-    rawMCMap items = true → StackInv st c → nedList st (buildMap env c items) = true →
-    ∃ items', representMap st (buildMap env c items) = .ok items' ∧ rawMCMap items' = true ∧
-      simL (buildMap env c items) (buildMap env c items') = true ∧
-      representMap st (buildMap env c items') = .ok items' ∧
-      (∀ k, keyFreshR k items' = keyFreshR k items) ∧ rawKeysNodup items' = rawKeysNodup items
-  | [], _, _, _, _, _ => ⟨[], rfl, rfl, rfl, rfl, fun _ => rfl, rfl⟩
-  | (k, r) :: rest, c, st, h, hinv, hned => by
+    rawMCMap items = true → Inv st c →
+    rawMCMap (representMap st (buildMap env c items)) = true ∧
+      simL (buildMap env c items) (buildMap env (rc c st) (representMap st (buildMap env c items))) = true ∧
+      representMap st (buildMap env (rc c st) (representMap st (buildMap env c items))) =
+        representMap st (buildMap env c items) ∧
+      (∀ k, keyFreshR k (representMap st (buildMap env c items)) = keyFreshR k items) ∧
+      rawKeysNodup (representMap st (buildMap env c items)) = rawKeysNodup items
+  | [], _, _, _, _ => ⟨rfl, rfl, rfl, fun _ => rfl, rfl⟩
+  | (k, r) :: rest, c, st, h, hinv => by
     have h' : rawMC r = true ∧ rawMCMap rest = true := by simpa [rawMCMap] using h
-    have hned' : nedWith st (build env c r) = true ∧ nedList st (buildMap env c rest) = true := by
-      simpa [buildMap, nedList] using hned
-    obtain ⟨r', a1, a2, a3, a4⟩ := rt_build env r c st h'.1 hinv hned'.1
-    obtain ⟨rest', b1, b2, b3, b4, b5, b6⟩ := rt_map env rest c st h'.2 hinv hned'.2
-    refine ⟨(k, r') :: rest', ?_, ?_, ?_, ?_, ?_, ?_⟩
-    · simp only [buildMap, representMap, a1, b1]
-    · simp [rawMCMap, a2, b2]
-    · simp only [buildMap, simL, a3, b3, beq_self_eq_true, Bool.and_self]
+    obtain ⟨a2, a3, a4⟩ := rt_build env r c st h'.1 hinv
+    obtain ⟨b2, b3, b4, b5, b6⟩ := rt_map env rest c st h'.2 hinv
+    refine ⟨?_, ?_, ?_, ?_, ?_⟩
+    · simp [buildMap, representMap, rawMCMap, a2, b2]
+    · simp only [buildMap, representMap, simL, a3, b3, beq_self_eq_true, Bool.and_self]
     · simp only [buildMap, representMap, a4, b4]
-    · intro k0; simp only [keyFreshR, b5 k0]
-    · simp only [rawKeysNodup, b5 k, b6]
-end
-
-/-! ### without explicit `delete / allow_new / safe` nothing is dropped -/
-
-mutual
-/-- no node carries an explicit `delete`, `allow_new` or `safe` (priority and metadata only) -/
-def noDNS : Node → Bool
-  | .leaf f _ => f.del.isNone && f.new.isNone && f.safe.isNone
-  | .comp f _ cs => f.del.isNone && f.new.isNone && f.safe.isNone && noDNSList cs
-def noDNSList : List (Key × Node) → Bool
-  | [] => true
-  | (_, c) :: rest => noDNS c && noDNSList rest
-end
-
-theorem simF_eq {f f' : Flags} (h : simF f f' = true) (h1 : f.del = none) (h2 : f.new = none)
-    (h3 : f.safe = none) : f' = f := by
-  obtain ⟨a1, a2, a3, a4, a5, a6, a7, a8, a9, a10⟩ := (simF_iff f f').1 h
-  have b8 : f'.del = f.del := by rcases a8 with e | ⟨e, _⟩ <;> simp [e, h1]
-  have b9 : f'.new = f.new := by rcases a9 with e | ⟨e, _⟩ <;> simp [e, h2]
-  have b10 : f'.safe = f.safe := by rcases a10 with e | ⟨e, _⟩ <;> simp [e, h3]
-  cases f; cases f'
-  simp_all
-
-mutual
-theorem simN_eq : ∀ (n n' : Node), simN n n' = true → noDNS n = true → n' = n
-  | .leaf f k, .leaf f' k', h, hd => by
-    simp only [simN, Bool.and_eq_true, beq_iff_eq] at h
-    simp only [noDNS, Bool.and_eq_true, Option.isNone_iff_eq_none] at hd
-    obtain ⟨h1, rfl⟩ := h
-    rw [simF_eq h1 hd.1.1 hd.1.2 hd.2]
-  | .comp f k cs, .comp f' k' cs', h, hd => by
-    simp only [simN, Bool.and_eq_true, beq_iff_eq] at h
-    simp only [noDNS, Bool.and_eq_true, Option.isNone_iff_eq_none] at hd
-    obtain ⟨⟨h1, rfl⟩, h3⟩ := h
-    rw [simF_eq h1 hd.1.1.1 hd.1.1.2 hd.1.2, simL_eq cs cs' h3 hd.2]
-  | .leaf _ _, .comp _ _ _, h, _ => by simp [simN] at h
-  | .comp _ _ _, .leaf _ _, h, _ => by simp [simN] at h
-theorem simL_eq : ∀ (l l' : List (Key × Node)), simL l l' = true → noDNSList l = true → l' = l
-  | [], [], _, _ => rfl
-  | (k, c) :: r, (k', c') :: r', h, hd => by
-    simp only [simL, Bool.and_eq_true, beq_iff_eq] at h
-    simp only [noDNSList, Bool.and_eq_true] at hd
-    obtain ⟨⟨rfl, h2⟩, h3⟩ := h
-    rw [simN_eq c c' h2 hd.1, simL_eq r r' h3 hd.2]
-  | [], _ :: _, h, _ => by simp [simL] at h
-  | _ :: _, [], h, _ => by simp [simL] at h
+    · intro k0; simp only [buildMap, representMap, keyFreshR, b5 k0]
+    · simp only [buildMap, representMap, rawKeysNodup, b5 k, b6]
 end
 
 end AY
